@@ -65,6 +65,7 @@ type Program struct {
 	Tolerant    []TolerantUse // uses of the unbound identifier zz
 	Failing     string        // non-empty: a generated statement that fails on its own (kind)
 	FailLine    int
+	Broken      string // non-empty: the program contains this syntactically broken tag
 }
 
 // TolerantUse is one place where the never-bound identifier zz was written.
@@ -103,15 +104,17 @@ type fnSig struct {
 }
 
 type genOpts struct {
-	probes      bool // emit probes
-	probePct    int  // probability (percent) of wrapping an expression in a probe
-	mapRegions  bool // emit for loops over a multi-entry Go map, inside region markers
-	pureMapBody bool // ... with a probe-free body, so call order does not depend on the visiting order (C13/C14)
-	tolerant    bool // emit uses of the unbound identifier zz
-	failing     bool // may emit one naturally failing statement
-	failPct     int  // ... with this probability (default 100)
-	noise       bool // multi-line strings / comments between tags (C15)
-	sharedSafe  bool // never mutate data that may live in a shared parent (always true today)
+	probes      bool  // emit probes
+	probePct    int   // probability (percent) of wrapping an expression in a probe
+	mapRegions  bool  // emit for loops over a multi-entry Go map, inside region markers
+	pureMapBody bool  // ... with a probe-free body, so call order does not depend on the visiting order (C13/C14)
+	tolerant    bool  // emit uses of the unbound identifier zz
+	failing     bool  // may emit one naturally failing statement
+	failPct     int   // ... with this probability (default 100)
+	brokenPct   int   // probability (percent) of one syntactically broken tag at top level (the program then fails to parse)
+	brokenKinds []int // restrict broken tags to these catalogue entries (swarm)
+	noise       bool  // multi-line strings / comments between tags (C15)
+	sharedSafe  bool  // never mutate data that may live in a shared parent (always true today)
 	maxPieces   int
 	maxDepth    int
 	noPartials  bool
@@ -140,8 +143,10 @@ type gen struct {
 
 func (g *gen) feat(name string) { g.p.Features[name]++ }
 
-func (g *gen) intn(label string, lo, hi int) int { return rapid.IntRange(lo, hi).Draw(g.t, label) }
-func (g *gen) pct(label string, p int) bool      { return rapid.IntRange(0, 99).Draw(g.t, label) < p }
+// intn: uniform choice in [lo,hi]; size: biased towards lo (for counts).
+func (g *gen) intn(label string, lo, hi int) int { return lo + uni(g.t, label, hi-lo+1) }
+func (g *gen) size(label string, lo, hi int) int { return rapid.IntRange(lo, hi).Draw(g.t, label) }
+func (g *gen) pct(label string, p int) bool      { return uni(g.t, label, 100) < p }
 
 func (g *gen) fresh(prefix string) string {
 	g.nextVar++
@@ -314,7 +319,7 @@ func (g *gen) rawExpr(k kind, depth int, class string) string {
 		case 8:
 			// variadic helper: the failing call can sit in the fixed or the variadic part
 			g.feat("helper_variadic")
-			n := g.intn("nvar", 0, 3)
+			n := g.size("nvar", 0, 3)
 			args := []string{g.expr(kInt, depth-1, "go-helper-arg")}
 			for i := 0; i < n; i++ {
 				args = append(args, g.expr(kInt, depth-1, "go-helper-variadic-arg"))
@@ -409,6 +414,11 @@ func (g *gen) rawExpr(k kind, depth int, class string) string {
 		case 2:
 			op := []string{"==", "!=", "<", "~="}[g.intn("op", 0, 3)]
 			g.feat("infix_strcmp")
+			if op == "~=" && g.pct("rxdata", 35) {
+				// pattern taken from the data: differs between data variants
+				g.feat("regex_from_data")
+				return g.operand(kStr, depth-1, "infix-left:~=") + " ~= rx"
+			}
 			if op == "~=" {
 				// varied patterns: a process-wide memo keyed by the pattern stays cold for new ones
 				pat := "^[a-" + string(rune('m'+g.intn("patc", 0, 13))) + "]"
@@ -447,7 +457,7 @@ func (g *gen) rawExpr(k kind, depth int, class string) string {
 			}
 		}
 		g.feat("array_literal")
-		n := g.intn("alen", 1, 3)
+		n := g.size("alen", 1, 3)
 		var parts []string
 		for i := 0; i < n; i++ {
 			parts = append(parts, g.expr(kAny, depth-1, "array-element"))
@@ -490,7 +500,7 @@ func (g *gen) newSiteIf(k probeKind, class string, want kind) *Site {
 // hashLit writes a hash literal. With dup, keys may repeat (source order then
 // decides the winner) and values are side-effecting probes.
 func (g *gen) hashLit(depth int, dup bool) string {
-	n := g.intn("hlen", 1, 4)
+	n := g.size("hlen", 1, 4)
 	keys := []string{"a", "b", "c", "d"}
 	var parts []string
 	for i := 0; i < n; i++ {
@@ -538,7 +548,7 @@ func (g *gen) callUser(f variable, depth int) string {
 var textBits = []string{"hello", " ", "\n", "<p>", "</p>", "&amp;", "a < b", "\"q\"", "it's", "é", "\n\n", "x", "\t", " 100 ", "<br/>", "\r\n", "=", "{", "}", "# not a comment", "%", "$"}
 
 func (g *gen) text() {
-	n := g.intn("ntext", 0, 4)
+	n := g.size("ntext", 0, 4)
 	var sb strings.Builder
 	for i := 0; i < n; i++ {
 		sb.WriteString(textBits[g.intn("tb", 0, len(textBits)-1)])
@@ -560,7 +570,7 @@ func (g *gen) popScope(n int) { g.scope = g.scope[:n] }
 
 func (g *gen) pieces(depth, max int) {
 	g.nest++
-	n := g.intn("npieces", 1, max)
+	n := g.size("npieces", 1, max)
 	for i := 0; i < n; i++ {
 		g.piece(depth)
 	}
@@ -663,7 +673,9 @@ func (g *gen) piece(depth int) {
 			g.tag("<%=", g.expr(kBool, 2, "output"), "%>")
 		}
 	case 21:
-		if g.o.mapRegions {
+		if g.o.mapRegions && g.pct("mapmut", 25) {
+			g.mapMutatePiece()
+		} else if g.o.mapRegions {
 			g.mapForPiece(depth)
 		} else {
 			g.forPiece(depth)
@@ -685,7 +697,7 @@ func (g *gen) ifPiece(depth int) {
 	sc := g.pushScope()
 	g.pieces(depth-1, 2)
 	g.popScope(sc)
-	nei := g.intn("nelseif", 0, 2)
+	nei := g.size("nelseif", 0, 2)
 	for i := 0; i < nei; i++ {
 		g.feat("else_if")
 		g.frames = 0
@@ -791,6 +803,27 @@ func (g *gen) mapForPiece(depth int) {
 	g.tag("<%=", kv+" + \"=\" + ("+g.expr(kInt, 1, "for-body")+" + "+vv+")", "%>")
 	g.o.probes = saveProbes
 	g.popScope(sc)
+	g.cur.write("I»")
+	g.tag("<%", "}", "%>")
+	g.cur.write("R»")
+}
+
+// mapMutatePiece: a for loop over a local hash whose body inserts a key into
+// that hash. Which entries exist when the loop starts is fixed, so the set of
+// visited entries must be the same on every execution (only the order is
+// licensed to vary).
+func (g *gen) mapMutatePiece() {
+	g.feat("for_map_mutating_body")
+	g.p.MapRegions++
+	h := g.fresh("h")
+	kv, vv := g.fresh("k"), g.fresh("e")
+	g.tag("<%", "let "+h+` = {"p": 1, "q": 2, "r": 3, "s": 4}`, "%>")
+	g.nl()
+	g.cur.write("«R")
+	g.tag("<%=", "for ("+kv+", "+vv+") in "+h+" {", "%>")
+	g.tag("<%", h+`["seen"] = 9`, "%>")
+	g.cur.write("«I")
+	g.tag("<%=", kv, "%>")
 	g.cur.write("I»")
 	g.tag("<%", "}", "%>")
 	g.cur.write("R»")
@@ -1173,6 +1206,29 @@ func (g *gen) failingPiece() {
 	g.nl()
 }
 
+// brokenTags: tags that make the whole template fail to parse (each verified
+// to return an error, not to hang, on the pinned tree).
+var brokenTags = []string{
+	"<%= for (x in xs { %>a<% } %>",
+	"<% break %>",
+	"<% continue %>",
+	"<%= if (n1 == ) { %>a<% } %>",
+	"<%= if n1 { %>a<% } %>",
+	"<% let = 3 %>",
+	"<% let x %>",
+	"<%= (1 + 2 %>",
+	"<%= [1, 2 %>",
+	"<%= {\"a\": 1 %>",
+	"<%= {\"a\" 1} %>",
+	"<%= 1 ^ 2 %>",
+	"<%= 1.2.3 %>",
+	"<%= xs[1 %>",
+	"<%= for (i, v) xs { %>a<% } %>",
+	"<%= fn(a { return a } %>",
+	"<%= a & b %>",
+	"<%= if ([1]) { %>a<% } %>",
+}
+
 // genProgram draws one program.
 func genProgram(t *rapid.T, o genOpts) *Program {
 	if o.maxPieces == 0 {
@@ -1187,7 +1243,7 @@ func genProgram(t *rapid.T, o genOpts) *Program {
 	p := &Program{Partials: map[string]string{}, Sites: map[int]*Site{}, FeederSites: map[string]*Site{}, Features: map[string]int{}}
 	g := &gen{t: t, o: o, p: p, cur: &tmpl{name: "", line: 1}}
 	p.JS = g.pct("js", 25)
-	np := g.intn("pieces", 1, o.maxPieces)
+	np := g.size("pieces", 1, o.maxPieces)
 	failAt := -1
 	if o.failPct == 0 {
 		o.failPct = 100
@@ -1195,7 +1251,23 @@ func genProgram(t *rapid.T, o genOpts) *Program {
 	if o.failing && g.pct("failing", o.failPct) {
 		failAt = g.intn("failat", 0, np-1)
 	}
+	brokenAt := -1
+	if o.brokenPct > 0 && g.pct("broken", o.brokenPct) {
+		brokenAt = g.intn("brokenat", 0, np-1)
+	}
 	for i := 0; i < np; i++ {
+		if i == brokenAt {
+			g.text()
+			k := g.intn("brokenkind", 0, len(brokenTags)-1)
+			if len(o.brokenKinds) > 0 {
+				k = o.brokenKinds[g.intn("brokenkindsel", 0, len(o.brokenKinds)-1)]
+			}
+			p.Broken = brokenTags[k]
+			g.feat("broken_tag")
+			g.cur.write(brokenTags[k])
+			g.nl()
+			continue
+		}
 		if i == failAt {
 			g.text()
 			g.failingPiece()
